@@ -2,6 +2,7 @@ package harness
 
 import (
 	"encoding/json"
+	"runtime"
 	"fmt"
 	"hash/fnv"
 	"math/rand"
@@ -303,6 +304,11 @@ func Main(t *testing.T) {
 		c := GenCase(prop, base, idx, tier)
 		r := Execute(t, c)
 		wo.Runs++
+		if os.Getenv("VERIF_DEBUG") != "" {
+			var ms runtime.MemStats
+			runtime.ReadMemStats(&ms)
+			fmt.Fprintf(os.Stderr, "run idx=%d heap=%dMB sys=%dMB goroutines=%d gc=%d\n", idx, ms.HeapAlloc>>20, ms.Sys>>20, runtime.NumGoroutine(), ms.NumGC)
+		}
 		if r.Infra != "" {
 			wo.Infra = append(wo.Infra, fmt.Sprintf("idx %d: %s", idx, r.Infra))
 			if len(wo.Infra) > 5 {
